@@ -106,7 +106,7 @@ func (g *fgen) pct(n int) bool { return g.r.Intn(100) < n }
 
 var fLabelNames = []string{"x", "y", "val", "_a", "é1", "rest"}
 var fFailLabels = []string{"e1", "ErrX", "l_2"}
-var fLitPool = []string{"a", "b", "+", "ab", "", " ", "\n", "\t", "é", "\\", "\"", "'", "`", "←", "\U0001F600", "x{", "}", "/*", "//", "\x00", "\x7f", "i"}
+var fLitPool = []string{"a", "b", "+", "ab", "", " ", "\n", "\t", "é", "\\", "\"", "'", "`", "←", "\U0001F600", "x{", "}", "/*", "//", "\x00", "\x7f", "i", "A", "Ab", "SELECT", "É", "ǅ", "İ", "\u212a", "aB\n"}
 var fCodePool = []string{
 	"{ return nil, nil }",
 	"{\n\treturn string(c.text), nil\n}",
